@@ -12,13 +12,13 @@ from vf.props import c01
 ID = "C03"
 TITLE = "Recovery factor conserves mass and respects its physical ceiling"
 LEVEL = "exploration"
-BUDGET = {"quick": 1600, "thorough": 40000}
+BUDGET = {"quick": 2400, "thorough": 40000}
 SHRINK = {"quick": False, "thorough": True}
 TIME_LIMIT = {"quick": 150, "thorough": 3300}
 RULE = (
     "'run' cases: tables / pressure pairs / nx / time grids / schedules as C01 (single-phase on thermodynamically "
     "consistent synthetic families, shipped and library-built gas tables; ideal reservoir), both recovery modes "
-    "computed on every run. 'ladder' cases: (nx, nt) = (20,400) -> (40,1600) -> (80,6400) on quadratic grids with a "
+    "computed on every run. 'ladder' cases: (nx, nt) = (20,200) -> (40,800) -> (80,3200) on quadratic grids with a "
     "constant or stepwise-decreasing schedule, the flux/in-place gap measured on each rung. Non-trivial = nx >= 5, "
     "relaxed to < 1 % of the drawdown or >= 50 steps, and an admissible gap (C/nx ceiling + E_t + eps_table) below "
     "half the ceiling (otherwise the gap oracle is vacuous - counted separately); or a ladder. Distinct = hash of the "
@@ -42,7 +42,7 @@ C_GAP = 3.0
 
 @st.composite
 def strategy_(draw, tier):
-    if draw(st.integers(0, 15)) == 0:
+    if draw(st.integers(0, 47)) == 0:
         c = draw(flowcase.sim_case(nx_max=20, max_steps=10, classes=("single",), schedules=False, with_library=tier != "quick"))
         c["kind"] = "ladder"
         c["T"] = draw(st.floats(1.0, 4.0))
@@ -50,7 +50,7 @@ def strategy_(draw, tier):
         c.pop("time")
         return c
     kinds = ("quadratic", "quadratic", "geometric", "geometric", "uniform", "random", "big", "repeat")
-    c = draw(flowcase.sim_case(nx_max=400, max_steps=300, table_nmax=300, time_kinds=kinds) if tier == "quick" else flowcase.sim_case(nx_max=400, max_steps=1500, table_nmax=600, time_kinds=kinds))
+    c = draw(flowcase.sim_case(nx_max=400, max_steps=200, table_nmax=300, time_kinds=kinds) if tier == "quick" else flowcase.sim_case(nx_max=400, max_steps=1500, table_nmax=600, time_kinds=kinds))
     c["kind"] = "run"
     return c
 
@@ -178,7 +178,7 @@ def check_ladder(case, res):
     gaps, adm = [], []
     nxs = [20, 40, 80]  # nx = 10 is pre-asymptotic for strongly pressure-dependent diffusivity (ratio 0.93 measured)
     for nx in nxs:
-        c = dict(case, nx=nx, time={"kind": "quadratic", "n": nx * nx + 1, "T": case["T"], "start": 0.0})
+        c = dict(case, nx=nx, time={"kind": "quadratic", "n": nx * nx // 2 + 1, "T": case["T"], "start": 0.0})
         r = flowcase.run(c)
         if not flowcase.sound_field(r.res, r, res):
             return
